@@ -28,7 +28,11 @@ func (ValidatorFinalCoverageIsComplete) Validate(
 
 	var measured types.References
 	for _, step := range l {
-		measured = append(measured, step.MeasuredData.References()...)
+		// the file references below are given as physical addresses, while
+		// a measurement may be given as image offsets: compare resolved ones.
+		newMeasuredRefs := step.MeasuredData.References()
+		_ = newMeasuredRefs.Resolve()
+		measured = append(measured, newMeasuredRefs...)
 		measured.SortAndMerge()
 	}
 
@@ -51,6 +55,7 @@ func (ValidatorFinalCoverageIsComplete) Validate(
 		}}
 	}
 
+	_ = data.References.Resolve()
 	nonMeasured := data.References.Exclude(measured...)
 	if len(nonMeasured) == 0 {
 		return nil
